@@ -108,6 +108,8 @@ fn main() {
     let total_runs = if mirror { runs * 2 } else { runs };
     let mut cfg = json!(null);
     let mut path: Vec<i64> = Vec::new();
+    let mut one_sided: Vec<u8> = Vec::new(); // per step of a controlled run: 0 two-sided quotes, 1 no ask quote, 2 no bid quote
+    let p_one_sided = prof.get("p_one_sided").and_then(|x| x.as_f64()).unwrap_or(0.08);
     for run in 0..total_runs {
         let reflected = mirror && run % 2 == 1;
         if !reflected {
@@ -137,6 +139,9 @@ fn main() {
             });
             // the mid-price path the harness imposes (in ticks around the level), for momentum runs
             path = (0..steps + 2).map(|_| rng.gen_range(-6..=6i64)).collect();
+            // steps at which the harness quotes one side only: the other side is empty (unless the agents' own orders rest there) and
+            // the observed mid-price is the one of the documented sentinel (0 / maximum price)
+            one_sided = (0..steps + 2).map(|_| if mirror || rng.gen::<f64>() >= p_one_sided { 0 } else if rng.gen::<bool>() { 1 } else { 2 }).collect();
             if rng.gen::<f64>() < 0.2 { for x in path.iter_mut() { *x = 0; } } // flat
             if rng.gen::<f64>() < 0.2 { let mut acc = 0; for x in path.iter_mut() { acc += 1; *x = acc.min(40); } } // rising
             if rng.gen::<f64>() < 0.2 { let mut acc = 0; for x in path.iter_mut() { acc -= 1; *x = acc.max(-40); } } // falling
@@ -218,9 +223,8 @@ fn main() {
                 let m = level + sign * path[k] * tick as i64;
                 let before = world.orders(asset).len();
                 let cross: i64 = if off { -1 } else { 1 }; // trading disabled: the quotes cross (bid above ask), same mid-price
-                world.quote(asset, Side::Bid, 1_000_000, (m - cross * tick as i64) as u32);
-                world.quote(asset, Side::Ask, 1_000_000, (m + cross * tick as i64) as u32);
-                quotes.push(before); quotes.push(before + 1);
+                if one_sided[k] != 2 { world.quote(asset, Side::Bid, 1_000_000, (m - cross * tick as i64) as u32); quotes.push(before); }
+                if one_sided[k] != 1 { world.quote(asset, Side::Ask, 1_000_000, (m + cross * tick as i64) as u32); quotes.push(before + quotes.len()); }
                 world.step(&mut arng);
             }
             // observation
